@@ -1570,6 +1570,11 @@ static void *peg_unmarshal(JanetMarshalContext *ctx) {
     size_t bytecode_len = janet_unmarshal_size(ctx);
     uint32_t num_constants = (uint32_t) janet_unmarshal_int(ctx);
 
+    /* Untrusted sizes: keep the size computation below from wrapping around, and do not
+     * allocate more than the input can fill (every word and constant takes at least a byte). */
+    if (bytecode_len > INT32_MAX || num_constants > INT32_MAX) janet_panic("invalid peg bytecode");
+    if (bytecode_len + num_constants > 0) janet_unmarshal_ensure(ctx, bytecode_len + num_constants - 1);
+
     /* Calculate offsets. Should match those in make_peg */
     size_t bytecode_start = size_padded(sizeof(JanetPeg), sizeof(uint32_t));
     size_t bytecode_size = bytecode_len * sizeof(uint32_t);
